@@ -120,7 +120,7 @@ def applyList (k : String) (vals : List Val) : R (Option Val) :=
   else if k = "$arrayElemAt" then
     (match vals with | [a, i] => arrayElemAtOp a i | _ => .error .valueErr)
   else if groupingOps.contains k then
-    (if k = "$first" || k = "$last" then .error .typeErr else (groupingOnList k vals).map some)
+    (if k = "$first" || k = "$last" then .error .typeErr else (groupingInExpr k vals).map some)
   else if k = "$concat" then (concatOp vals).map some
   else if k = "$concatArrays" then (concatArraysOp vals).map some
   else if k = "$split" then
